@@ -8,7 +8,7 @@
 (*            instruction has a result, its kind ("pure", "push", "mload",    *)
 (*            "mstore", "sload", "sstore", "hash"), operand-order freedom;    *)
 (*            the harness keeps the names                                    *)
-(*   G.maxsrc, G.maxins, G.maxtgt   bounds                                   *)
+(*   G.minsrc, G.maxsrc, G.maxins, G.maxtgt   bounds                         *)
 (* A value is a natural: 1..nsrc are the initial stack elements, nsrc + i is  *)
 (* the result of instruction i.  An instruction takes its operands among the  *)
 (* values that exist before it, so data flow is acyclic by construction;      *)
@@ -42,7 +42,7 @@ Cand == {p \in (1..Len(ins)) \X (1..Len(ins)) :
            /\ p[1] < p[2] /\ Domain(p[1]) # "none" /\ Domain(p[1]) = Domain(p[2])
            /\ (IsStore(p[1]) \/ IsStore(p[2]))}
 
-Init == nsrc \in 0..G.maxsrc /\ ins = <<>> /\ tgt = <<>> /\ deps = {} /\ phase = "build"
+Init == nsrc \in G.minsrc..G.maxsrc /\ ins = <<>> /\ tgt = <<>> /\ deps = {} /\ phase = "build"
 
 Add ==
   /\ phase = "build" /\ Len(ins) < G.maxins
